@@ -34,6 +34,14 @@ def oracle_cases(tier, rng):
                     for layer, hw in ((1, (8, 8)), (1, (6, 10)), (1, (7, 5)), (2, (8, 8)), (2, (16, 8)), (2, (11, 9))):
                         if tier == 'quick' and layer == 2 and hw != (8, 8) and kind in ('spike', 'tiny'): continue
                         yield dict(layer=layer, biort=b, qshift=q, colour=colour, bias=bias, kind=kind, H=hw[0], W=hw[1], seed=int(rng.integers(1 << 30)))
+    # a small bias with coefficients of the same small size: the phase re/r, im/r must not be regularised beyond the bias itself
+    for (b, q) in fams[:2]:
+        for colour in (0, 1):
+            for bias in (1e-4, 1e-5):
+                for kind in ('small', 'tiny'):
+                    yield dict(layer=1, biort=b, qshift=q, colour=colour, bias=bias, kind=kind, H=8, W=8, seed=int(rng.integers(1 << 30)))
+                    if kind == 'small':
+                        yield dict(layer=2, biort=b, qshift=q, colour=colour, bias=bias, kind=kind, H=8, W=8, seed=int(rng.integers(1 << 30)))
     for bias in (1e-3, 0.5):
         for sub in ((1, 0), (0, 1), (1, 1)):
             yield dict(layer=0, biort='-', qshift='-', colour=0, bias=bias, kind='smag', H=4, W=4, subset=list(sub), seed=int(rng.integers(1 << 30)))
@@ -74,23 +82,26 @@ def oracle_run(cfg):
                ScatLayerj2(biort=cfg['biort'], qshift=cfg['qshift'], magbias=b, combine_colour=bool(cfg['colour']))).double()
         x = torch.tensor(X, requires_grad=True)
         Z = lay(x)
-        g = torch.tensor(r.standard_normal(tuple(Z.shape)))
-        gx, = torch.autograd.grad([Z], [x], [g])
-        if not torch.isfinite(gx).all():
-            return dict(detail='non-finite gradient entries: %d' % int((~torch.isfinite(gx)).sum()))
         sc = max(1.0, float(np.abs(X).max()))
-        worst = 0.0
-        for t in range(3):
-            v = torch.tensor(r.standard_normal(X.shape))
-            eps = 1e-6 * sc if cfg['kind'] != 'tiny' else 1e-9
-            with torch.no_grad():
-                f1 = float((lay(torch.tensor(X) + eps * v) * g).sum()); f0 = float((lay(torch.tensor(X) - eps * v) * g).sum())
-            fd = (f1 - f0) / (2 * eps)
-            an = float((gx * v).sum())
-            # second-order term of the finite difference scales like eps^2 / bias; allow for it
-            tol = 1e-5 * (abs(fd) + abs(an) + 1.0) + 50 * eps * eps / max(b, 1e-12) * float(g.abs().sum())
-            if abs(fd - an) > tol:
-                return dict(detail='directional derivative: backprop %.10g vs finite difference %.10g (tol %.3g)' % (an, fd, tol))
+        for fam, (g,) in cot_families(r, [Z.shape]):
+            if fam.startswith('randn *'): continue          # the finite-difference tolerance below has an absolute floor
+            gx, = torch.autograd.grad([Z], [x], [g], retain_graph=True)
+            if not torch.isfinite(gx).all():
+                return dict(detail='non-finite gradient entries: %d (cotangent [%s])' % (int((~torch.isfinite(gx)).sum()), fam))
+            for t in range(3 if fam == 'randn' else 1):
+                v = torch.tensor(r.standard_normal(X.shape))
+                eps = 1e-6 * sc if cfg['kind'] != 'tiny' else 1e-9
+                if b > 0: eps = min(eps, 1e-2 * b)
+                def cdiff(e):
+                    with torch.no_grad():
+                        f1 = float((lay(torch.tensor(X) + e * v) * g).sum()); f0 = float((lay(torch.tensor(X) - e * v) * g).sum())
+                    return (f1 - f0) / (2 * e), abs(f1) + abs(f0)
+                d1, m1 = cdiff(eps); d2, m2 = cdiff(eps / 2)
+                fd = (4 * d2 - d1) / 3                       # Richardson; |d2 - d1| estimates the truncation error of d2 (x3)
+                an = float((gx * v).sum())
+                tol = 1e-5 * (abs(fd) + abs(an) + 1.0) + 4 * abs(d2 - d1) + 1e-13 * (m1 + m2) / eps
+                if abs(fd - an) > tol:
+                    return dict(detail='directional derivative, cotangent [%s]: backprop %.10g vs finite difference %.10g (tol %.3g)' % (fam, an, fd, tol))
         return None
     except Exception as e:
         return dict(error='%s: %s' % (type(e).__name__, str(e)[:200]))
